@@ -367,6 +367,22 @@ impl From<u128> for BigUint {
 //@ end
 }
 
+impl vstd::std_specs::convert::FromSpecImpl<u32> for BigUint {
+    open spec fn obeys_from_spec() -> bool { false }
+    open spec fn from_spec(v: u32) -> BigUint { arbitrary() }
+}
+impl From<u32> for BigUint {
+//@ extract src/biguint/convert.rs :: macro_rules! impl_biguint_from_uint :: arm 0 :: fn from subst=$T=>u32 props=C08,C04 label=from_u32
+    fn from(n: u32) -> /*+*/(r: /*-*/Self/*+*/)/*-*/
+//+{
+        ensures r.wf(), r.v() == n as nat
+//+}
+    {
+        BigUint::from(n as u64)
+    }
+//@ end
+}
+
 } // mod u
 } // verus!
 fn main() {}
